@@ -1,14 +1,23 @@
 (* Properties_C03: shutdown() flushes everything before FIN; forceClose() closes at once, safely.
-   Only statements, closed by [exact], with Print Assumptions and non-vacuity examples.
-   Same model as C01 (Conn_Model), tied to muduo/net/TcpConnection.cc by the correspondence
-   check.  [reach c] = c is reached from [init mark wc hw] by some list of accepted ops.
+   Only statements, closed by [exact], each followed by Print Assumptions, and non-vacuity examples.
+   Same model as C01 (Conn_Model; see the header of Properties_C01.v for the op vocabulary).
+   [fin c] = the write side has been shut down (::shutdown(fd, SHUT_WR) was called: the peer sees
+   end-of-stream after the bytes of [wire c]); [ForceCloseDelay] arms a timer that holds only a
+   weak reference ([delayed] counts them), [DelayFire] = such a timer fires.
+   [reach c] = c is reached from [init mark wc hw] by some list of accepted ops.
+   Tie to the C++: the state tests of send / shutdown / forceClose / forceCloseWithDelay /
+   forceCloseInLoop / handleClose, the `!isWriting()` of shutdownInLoop and the drain path of
+   handleWrite of the CURRENT TcpConnection.cc are regenerated (Gen_Conn.v) and the model steps
+   are proved equal to the steps re-assembled from them (section "source"); differential
+   execution + the property text as an oracle on the implementation's output (bin/check C03).
    Definitions used below (Conn_Proofs):
      shut_op c o  = o is Shutdown, XShutdown, or a RunOne whose oldest functor is FShutdown;
      count f e    = number of events of e satisfying f;  is_up / is_down recognise EvUp / EvDown;
      set_aux c ch n = c with chk := ch and delayed := n (nothing else). *)
 From Coq Require Import List ZArith Lia Bool Arith NArith.
 From Coq.Strings Require Import Byte.
-From Muduo Require Import Conn_Model Conn_Proofs.
+From Muduo Require Import Gen_Consts Gen_Conn Conn_Model Conn_Proofs Conn_Trace
+                          Conn_GenTie Conn_GenTieLife.
 Import ListNotations.
 
 (* ---- the half-close ---------------------------------------------------------------------- *)
@@ -33,7 +42,7 @@ Theorem C03_shut_op_def : forall c o,
   | RunOne _ => match pending c with FShutdown :: _ => true | _ => false end
   | _ => false
   end.
-Proof. reflexivity. Qed.
+Proof. exact shut_op_unfold. Qed.
 Print Assumptions C03_shut_op_def.
 
 (* nothing is written, and nothing more is taken, after the FIN - by any op list *)
@@ -45,6 +54,50 @@ Theorem C03_no_write_after_fin : forall c, reach c -> fin c = true ->
      wire c' = wire c /\ accepted c' = accepted c /\ fin c' = true).
 Proof. exact P03_no_write_after_fin. Qed.
 Print Assumptions C03_no_write_after_fin.
+
+(* HEADLINE (flush, then FIN).  shutdown() on the loop thread with an empty backlog half-closes
+   at once; with a backlog it only marks the connection Disconnecting.  Every later writability
+   event moves bytes from the backlog to the wire, and the one that empties the backlog issues
+   the half-close in the same step: the peer receives every queued byte and only then
+   end-of-stream.  A foreign shutdown() does the same once its functor runs. *)
+Theorem C03_shutdown_flushes_then_fin : forall c, reach c ->
+  (st c = Connected -> outb c = [] ->
+     exists c', step c Shutdown = Ok (c', [EvFin]) /\ fin c' = true /\ st c' = Disconnecting /\
+       wire c' = wire c /\ outb c' = []) /\
+  (st c = Connected -> outb c <> [] -> step c Shutdown = Ok (set_st c Disconnecting, [])) /\
+  (st c = Connected ->
+     step c XShutdown = Ok (set_pending (set_st c Disconnecting) (pending c ++ [FShutdown]), [])) /\
+  (forall k rest, pending c = FShutdown :: rest -> st c = Disconnecting ->
+     (outb c = [] -> exists c', step c (RunOne k) = Ok (c', [EvFin]) /\ fin c' = true /\ wire c' = wire c /\
+                                 pending c' = rest) /\
+     (outb c <> [] -> step c (RunOne k) = Ok (set_pending c rest, []))) /\
+  (st c = Disconnecting -> fin c = false -> outb c <> [] -> forall k n,
+     taken k (length (outb c)) = Some n -> 0 < n ->
+     exists c' e, step c (EvWritable k) = Ok (c', e) /\
+       wire c' = wire c ++ firstn n (outb c) /\ outb c' = skipn n (outb c) /\ st c' = Disconnecting /\
+       (n < length (outb c) -> fin c' = false /\ e = [] /\ writing c' = true) /\
+       (n = length (outb c) -> fin c' = true /\ e = [EvFin] /\ outb c' = [] /\ writing c' = false)).
+Proof. exact shutdown_flushes_then_fin. Qed.
+Print Assumptions C03_shutdown_flushes_then_fin.
+
+(* over a whole history: if the connection is up and half-closed, the backlog is empty, write
+   interest is off and the wire holds every block any sendInLoop of the history took
+   ([step_block], Properties_C01.C01_step_block_def) - all of it before the FIN *)
+Theorem C03_fin_all_on_wire : forall mark wc hw ops c e,
+  run (init mark wc hw) ops = Ok (c, e) -> fin c = true -> st c = Connected \/ st c = Disconnecting ->
+  outb c = [] /\ writing c = false /\ st c = Disconnecting /\
+  wire c = flat_map step_block (trace (init mark wc hw) ops).
+Proof. exact fin_all_on_wire. Qed.
+Print Assumptions C03_fin_all_on_wire.
+
+Theorem C03_step_block_def : forall c o c',
+  step_block (c, o, c') =
+  match send_of c o with
+  | Some (d, k, _) => if send_fatal c k then [] else d
+  | None => []
+  end.
+Proof. exact step_block_unfold. Qed.
+Print Assumptions C03_step_block_def.
 
 (* shutdown() on either thread and the execution of its functor leave the read side alone;
    in state Disconnecting data is still received and handed to the message callback, and the
@@ -83,8 +136,14 @@ Proof. exact P03_down_at_most_once. Qed.
 Print Assumptions C03_down_at_most_once.
 
 Theorem C03_count_def : forall f e, count f e = length (filter f e).
-Proof. reflexivity. Qed.
+Proof. exact count_unfold. Qed.
 Print Assumptions C03_count_def.
+
+Theorem C03_is_up_down_def : forall ev,
+  is_up ev = (match ev with EvUp => true | _ => false end) /\
+  is_down ev = (match ev with EvDown => true | _ => false end).
+Proof. exact is_up_down_unfold. Qed.
+Print Assumptions C03_is_up_down_def.
 
 (* ---- forceClose -------------------------------------------------------------------------- *)
 (* from any up state forceClose() (and a firing forceCloseWithDelay timer) only marks the
@@ -103,6 +162,20 @@ Theorem C03_force_close_once : forall c, reach c -> st c = Connected \/ st c = D
        wire c' = wire c /\ outb c' = outb c /\ inb c' = inb c /\ fin c' = fin c).
 Proof. exact P03_force_close_once. Qed.
 Print Assumptions C03_force_close_once.
+
+(* HEADLINE (closes at once, exactly once).  forceClose() - immediately, or when the timer of
+   forceCloseWithDelay() fires - on a connection that is up: once the loop has run the tasks
+   queued up to then (as many RunOne steps as there are functors in the queue; whatever the
+   kernel answers; WITHOUT any event from the peer; no step is refused or faults) the connection
+   is Disconnected and exactly one DOWN, no UP, was delivered in those steps. *)
+Theorem C03_force_close_effective : forall c, reach c -> st c = Connected \/ st c = Disconnecting ->
+  forall o c1 e1, o = ForceClose \/ o = DelayFire -> step c o = Ok (c1, e1) ->
+  e1 = [] /\
+  forall ks, length ks = length (pending c1) ->
+  exists c2 e2, run c1 (map RunOne ks) = Ok (c2, e2) /\
+    st c2 = Disconnected /\ downs c2 = 1 /\ count is_down e2 = 1 /\ count is_up e2 = 0.
+Proof. exact force_close_effective. Qed.
+Print Assumptions C03_force_close_effective.
 
 (* the queued forced close is never lost: it stays in the queue until the loop runs it *)
 Theorem C03_force_close_pending : forall c o c' e, step c o = Ok (c', e) ->
@@ -131,7 +204,7 @@ Theorem C03_set_aux_def : forall c ch n,
   mkConn (st c) (outb c) (inb c) (writing c) (rd_chan c) (rd_flag c) (registered c) (hwm c) (has_wc c)
          (has_hwm c) (wire c) (fin c) (pending c) ch n (accepted c) (consumed c) (delivered c)
          (enq c) (ran c) (ups c) (downs c).
-Proof. reflexivity. Qed.
+Proof. exact set_aux_unfold. Qed.
 Print Assumptions C03_set_aux_def.
 
 (* ---- send() after shutdown() / forceClose() ---------------------------------------------- *)
@@ -192,6 +265,89 @@ Theorem C03_flush_partial_sends : forall c, reach c ->
      accepted c' = accepted c /\ wire c' = wire c /\ outb c' = outb c /\ ran c' = ran c ++ [(t, d)]).
 Proof. exact P01_accepted_delivered_partial. Qed.
 Print Assumptions C03_flush_partial_sends.
+
+(* ---- source: the tests of the current TcpConnection.cc ------------------------------------ *)
+(* shutdown(): `if (state_ == kConnected)`; inline shutdownInLoop on the loop thread, a queued
+   functor from a foreign thread *)
+Theorem C03_shutdown_is_source : forall c, st c <> Connecting ->
+  step c Shutdown =
+    Ok (if shutdown_state_test TcpConnection_kConnected (st_code (st c))
+        then shutdownInLoop_src (set_st c Disconnecting) else (c, [])) /\
+  step c XShutdown =
+    Ok (if shutdown_state_test TcpConnection_kConnected (st_code (st c))
+        then (set_pending (set_st c Disconnecting) (pending c ++ [FShutdown]), []) else (c, [])).
+Proof. exact shutdown_is_source. Qed.
+Print Assumptions C03_shutdown_is_source.
+
+(* shutdownInLoop: `if (!channel_->isWriting()) socket_->shutdownWrite()` *)
+Theorem C03_shutdownInLoop_is_source : forall c, shutdownInLoop_src c = shutdownInLoop c.
+Proof. exact shutdownInLoop_is_source. Qed.
+Print Assumptions C03_shutdownInLoop_is_source.
+
+(* handleWrite: `n > 0`, retrieve(n), `readableBytes() == 0`, disableWriting BEFORE the
+   `state_ == kDisconnecting` test that calls shutdownInLoop *)
+Theorem C03_handleWrite_is_source : forall c k, handleWrite_src c k = handleWrite c k.
+Proof. exact handleWrite_is_source. Qed.
+Print Assumptions C03_handleWrite_is_source.
+
+(* forceClose / forceCloseInLoop / handleClose's assert: `state_ == kConnected || state_ == kDisconnecting` *)
+Theorem C03_forceClose_is_source : forall c,
+  forceClose c =
+  (if forceClose_state_test TcpConnection_kConnected TcpConnection_kDisconnecting (st_code (st c))
+   then set_pending (set_st c Disconnecting) (pending c ++ [FForceClose]) else c) /\
+  forceCloseInLoop c =
+  (if forceCloseInLoop_forceclose_state_test TcpConnection_kConnected TcpConnection_kDisconnecting (st_code (st c))
+   then handleClose c else (c, [])) /\
+  handleCloseChecked c =
+  (if handleClose_assert_test TcpConnection_kConnected TcpConnection_kDisconnecting (st_code (st c))
+   then Ok (handleClose c) else Fault).
+Proof. exact forceClose_is_source. Qed.
+Print Assumptions C03_forceClose_is_source.
+
+Theorem C03_forceCloseWithDelay_is_source : forall c, st c <> Connecting ->
+  exists c', step c ForceCloseDelay = Ok (c', []) /\
+    st c' = (if forceCloseWithDelay_state_test TcpConnection_kConnected TcpConnection_kDisconnecting (st_code (st c))
+             then Disconnecting else st c) /\
+    delayed c' = (if forceCloseWithDelay_state_test TcpConnection_kConnected TcpConnection_kDisconnecting (st_code (st c))
+                  then S (delayed c) else delayed c) /\
+    pending c' = pending c.
+Proof. exact forceCloseWithDelay_is_source. Qed.
+Print Assumptions C03_forceCloseWithDelay_is_source.
+
+(* send() is accepted only in the connected state: `if (state_ == kConnected)` on both threads *)
+Theorem C03_send_is_source : forall c d k, st c <> Connecting ->
+  step c (Send d k) =
+  Ok (if send_sp_state_test TcpConnection_kConnected (st_code (st c))
+      then (if send_sp_inloop_test true then sendInLoop_src c d k else (c, []))
+      else (c, [])).
+Proof. exact send_is_source. Qed.
+Print Assumptions C03_send_is_source.
+
+Theorem C03_foreign_send_is_source : forall c t d, st c <> Connecting ->
+  (exists c', step c (FSendCheck t) = Ok (c', []) /\
+     chk c' = (t, send_sp_state_test TcpConnection_kConnected (st_code (st c))) :: chk c /\
+     pending c' = pending c /\ st c' = st c /\ outb c' = outb c /\ wire c' = wire c) /\
+  (exists c', step c (FSendEnq t d) = Ok (c', []) /\
+     pending c' = (if lookup t (chk c) then (if send_sp_inloop_test false then pending c else pending c ++ [FSend t d])
+                   else pending c)).
+Proof. exact foreign_send_is_source. Qed.
+Print Assumptions C03_foreign_send_is_source.
+
+(* which reference each queued close holds in the current source: forceClose() queues
+   forceCloseInLoop with shared_from_this() (strong: the model's FForceClose functor is never
+   dropped, C03_force_close_pending); forceCloseWithDelay() hands runAfter a makeWeakCallback
+   (weak: the model's [delayed] counter, whose firing on a connection that is down - or gone -
+   is the identity, C03_force_close_noop_when_down); shutdown() goes through runInLoop *)
+Theorem C03_source_structure :
+  send_ptr_delegates_to_send = true /\
+  send_sp_inloop_sends_inline = true /\ send_sp_foreign_copies_payload = true /\
+  send_buf_inloop_sends_inline = true /\ send_buf_foreign_copies_payload = true /\
+  send_buf_inloop_empties_caller_buffer = true /\
+  shutdown_runs_in_loop = true /\
+  forceClose_queues_strong_ref = true /\
+  forceCloseWithDelay_holds_weak_ref = true.
+Proof. exact source_structure_life. Qed.
+Print Assumptions C03_source_structure.
 
 (* ---- non-vacuity: shutdown with a backlog (half-close deferred to the drain path), sends
    after the shutdown discarded on both threads, data received while Disconnecting, a delayed
